@@ -17,7 +17,127 @@ SYS_RULE = ("sys traces: a real server App and 1..3 real client Apps (MinimalPlu
             "ServerUpdateTick) is compared with the server snapshot history. distinct_nontrivial = distinct cases with at least one sending "
             "server frame and one client frame that holds entities. ")
 
+LOCK = "Model vs implementation (all sys-based properties): the Lean models of the server (Model/Server.lean) and of every client (Model/Client.lean) are driven by the same operations; after every server frame each section of each real update message and the union of the real mutate messages are compared with what the model sends (as multisets; iteration order is not modelled), and after every client frame the client's real entity map, components, confirmed ticks, ServerUpdateTick and acknowledgements are compared with the model client. "
+
 PROPS = {
+    "C01": {
+        "modules": ["Replicon.Props.C01"],
+        "theorems": [
+            "Replicon.C01.C01_progress_structure",
+            "Replicon.C01.C01_progress_values",
+            "Replicon.C01.C01_progress_despawn",
+            "Replicon.C01.C01_stable_server",
+            "Replicon.C01.C01_stable_client",
+        ],
+        "profiles": [{"name": "sys", "shards": {"thorough": 8}}, {"name": "sys_vis", "shards": {"thorough": 4}}, {"name": "sys_split", "shards": {"thorough": 4}}],
+        "rule": SYS_RULE + LOCK + "For C01: oracle on the implementation: after the quiescent suffix (PERIOD+4 ticks, full in-order delivery) every authorized client's view equals the server's (same visible replicated entities, components, values; `once` components by structure); a panic of either app anywhere in the trace is a violation.",
+        "trusted_extra": [
+            "modelled, not verified: Bevy ECS (change detection as one logical clock, iteration orders as multisets, required components, observers), "
+            "postcard encodings of the harness's component types; the models are compared with the real apps on every message and every client frame",
+        ],
+        "assumptions": ['partial: the end-to-end convergence theorem is replaced by per-run theorems + oracle on the implementation + exact model correspondence. Known findings F4 (periodic) and F20 (tick-0 race) are reported, tagged by the trace checker.'],
+    },
+    "C02": {
+        "modules": ["Replicon.Props.C02"],
+        "theorems": [
+            "Replicon.C02.C02_record_atomic",
+            "Replicon.C02.C02_monotone",
+            "Replicon.C02.C02_record_complete",
+            "Replicon.C02.C02_ack_on_apply",
+        ],
+        "profiles": [{"name": "sys", "shards": {"thorough": 8}}, {"name": "sys_split", "shards": {"thorough": 4}}],
+        "rule": SYS_RULE + LOCK + "For C02: oracle on the implementation after every client frame: for every mapped client entity with ConfirmHistory.last_tick = t the values of its every-tick components equal the server snapshot of tick t restricted to that client's view (snapshots are recorded at every replication run).",
+        "trusted_extra": [
+            "modelled, not verified: Bevy ECS (change detection as one logical clock, iteration orders as multisets, required components, observers), "
+            "postcard encodings of the harness's component types; the models are compared with the real apps on every message and every client frame",
+        ],
+        "assumptions": ["partial: the invariant relating the server's belief to in-flight messages is not proved as one theorem. Known finding F20 tagged by the trace checker."],
+    },
+    "C03": {
+        "modules": ["Replicon.Props.C03"],
+        "theorems": [
+            "Replicon.C03.C03_tick_monotone",
+            "Replicon.C03.C03_tick_is_message_tick",
+            "Replicon.C03.C03_hidden_nothing",
+            "Replicon.C03.C03_new_entity_whole",
+            "Replicon.C03.C03_despawn_sent",
+            "Replicon.C03.C03_entity_record_complete",
+            "Replicon.C03.C03_marker",
+        ],
+        "profiles": [{"name": "sys", "shards": {"thorough": 8}}, {"name": "sys_vis", "shards": {"thorough": 8}}],
+        "rule": SYS_RULE + LOCK + "For C03: oracle on the implementation after every client frame: the client's mapped entities (a consistent two-way map), their replicated component sets and markers equal the server snapshot at the client's ServerUpdateTick restricted to what is visible to it (placeholders created only by references / pre-spawn mappings excepted).",
+        "trusted_extra": [
+            "modelled, not verified: Bevy ECS (change detection as one logical clock, iteration orders as multisets, required components, observers), "
+            "postcard encodings of the harness's component types; the models are compared with the real apps on every message and every client frame",
+        ],
+        "assumptions": ['partial: update_is_diff for every reachable server state is not proved as one theorem; per-section theorems + exact correspondence + oracle.'],
+    },
+    "C07": {
+        "modules": ["Replicon.Props.C07"],
+        "theorems": [
+            "Replicon.C07.C07_unauthorized_silent",
+            "Replicon.C07.C07_full_state_on_authorization",
+            "Replicon.C07.C07_authorize_fresh",
+            "Replicon.C07.C07_protocol_check",
+        ],
+        "profiles": [{"name": "sys_auth", "shards": {"thorough": 8}}],
+        "rule": SYS_RULE + LOCK + 'For C07 (profile sys_auth: AuthMethod::ProtocolCheck / Custom / None, clients that authorize late or never): oracle: no update or mutate message is ever addressed to a client without AuthorizedClient; after authorization the convergence oracle applies.',
+        "trusted_extra": [
+            "modelled, not verified: Bevy ECS (change detection as one logical clock, iteration orders as multisets, required components, observers), "
+            "postcard encodings of the harness's component types; the models are compared with the real apps on every message and every client frame",
+        ],
+        "assumptions": ["The requirement 'ClientTicks exists only on authorized clients' (Bevy required components) is modelled as a flag and tied by the lock-step comparison."],
+    },
+    "C09": {
+        "modules": ["Replicon.Props.C09"],
+        "theorems": [
+            "Replicon.C09.C09_client_reset",
+            "Replicon.C09.C09_server_forgets_client",
+            "Replicon.C09.C09_server_reset",
+            "Replicon.C09.C09_fresh_session",
+        ],
+        "profiles": [{"name": "sys", "shards": {"thorough": 8}}, {"name": "sys_auth", "shards": {"thorough": 4}}],
+        "rule": SYS_RULE + LOCK + "For C09: disconnects and server stops are injected at arbitrary points of generated histories (messages of every kind in flight, mutate messages buffered), followed by reconnects; oracle: a disconnected client's protocol state is empty in its next frame; the new session passes the C01/C02/C03 oracles; no panic.",
+        "trusted_extra": [
+            "modelled, not verified: Bevy ECS (change detection as one logical clock, iteration orders as multisets, required components, observers), "
+            "postcard encodings of the harness's component types; the models are compared with the real apps on every message and every client frame",
+        ],
+        "assumptions": ['Known finding F13 (client panic after disconnect under the default protocol check) is reported, tagged by the trace checker. Process crashes are not a notion of this in-memory library: crash points are session cuts.'],
+    },
+    "C11": {
+        "modules": ["Replicon.Props.C11"],
+        "theorems": [
+            "Replicon.C11.C11_resend_until_ack",
+            "Replicon.C11.C11_ack_sound",
+            "Replicon.C11.C11_unknown_ack_noop",
+            "Replicon.C11.C11_ack_once",
+            "Replicon.C11.C11_idle_silent",
+        ],
+        "profiles": [{"name": "sys", "shards": {"thorough": 8}}, {"name": "sys_split", "shards": {"thorough": 4}}],
+        "rule": SYS_RULE + LOCK + "For C11: oracle: in the late rounds of the quiescent suffix (everything delivered and acknowledged, nothing changing) the server sends no replication message at all (unless tracking is on); acknowledgement delay / starvation / loss of mutate messages and junk acknowledgement indices are part of the generated schedules, and the model's belief (mutTick, in-flight table, ack cleanup timer) is compared through every subsequent message.",
+        "trusted_extra": [
+            "modelled, not verified: Bevy ECS (change detection as one logical clock, iteration orders as multisets, required components, observers), "
+            "postcard encodings of the harness's component types; the models are compared with the real apps on every message and every client frame",
+        ],
+        "assumptions": ["Known finding F15 (16-bit index wrap with 65536 in-flight messages) is a documented design limit outside the theorems' in-flight table (indices are unique per registration within the table)."],
+    },
+    "C16": {
+        "modules": ["Replicon.Props.C16"],
+        "theorems": [
+            "Replicon.C16.C16_adopted",
+            "Replicon.C16.C16_lands_on_existing",
+            "Replicon.C16.C16_gone_ignored",
+            "Replicon.C16.C16_fresh_if_gone",
+            "Replicon.C16.C16_others_unaffected",
+        ],
+        "profiles": [{"name": "sys", "shards": {"thorough": 8}}, {"name": "sys_split", "shards": {"thorough": 4}}],
+        "rule": SYS_RULE + LOCK + "For C16: histories with client-side pre-spawned entities, mappings registered in the spawn's tick window, optional client-side despawn before arrival, extra traffic; oracle after quiescence: a replicated entity with a registered mapping to a live pre-spawned entity lands on that entity.",
+        "trusted_extra": [
+            "modelled, not verified: Bevy ECS (change detection as one logical clock, iteration orders as multisets, required components, observers), "
+            "postcard encodings of the harness's component types; the models are compared with the real apps on every message and every client frame",
+        ],
+        "assumptions": ['Known finding F21 (despawn queued for a never-sent hidden entity removes the pre-spawned entity) is reported, tagged by the trace checker.'],
+    },
     "C10": {
         "modules": ["Replicon.Props.C10"],
         "theorems": [
@@ -195,6 +315,48 @@ PROPS = {
 }
 
 MANIFEST_TEXT = {
+    "C01": {
+        "text": "Per-run halves of the convergence argument are Lean theorems about the protocol models: progress (an entity the client lacks is sent whole; a value newer than the server's belief is sent whenever its rate fires; a visible despawned entity is in DESPAWNS) and stability (nothing pending and nothing to say => the run sends nothing and changes nothing; a client frame without messages changes nothing). The induction joining them over arbitrary histories (C01_converges_partial) is NOT proved; convergence and absence of panics are checked on the implementation at the end of every generated trace, with both models in lock step (0 disagreements required).",
+        "design_ref": "DESIGN.md §7 C01",
+        "note": 'partial: the end-to-end convergence theorem is replaced by per-run theorems + oracle on the implementation + exact model correspondence. Known findings F4 (periodic) and F20 (tick-0 race) are reported, tagged by the trace checker.',
+        "technique": "Lean 4 proof (per-run theorems about executable server/client protocol models) + lock-step model/implementation correspondence on real traces + property oracle on the implementation",
+    },
+    "C02": {
+        "text": 'Lean theorems about the protocol models: a mutate record is applied to an entity completely (tick + all components) or not at all (C02_record_atomic); it is applied only if newer than the confirmed tick (C02_monotone); what the server sends for an entity contains every every-tick component changed after its belief (C02_record_complete); the client acknowledges exactly the messages it applies (C02_ack_on_apply, the F1 repair). The history-level statement (C02_truthful_partial) is checked as an oracle on the implementation after every client frame of every trace, with both models in lock step.',
+        "design_ref": "DESIGN.md §7 C02",
+        "note": "partial: the invariant relating the server's belief to in-flight messages is not proved as one theorem. Known finding F20 tagged by the trace checker.",
+        "technique": "Lean 4 proof (per-run theorems about executable server/client protocol models) + lock-step model/implementation correspondence on real traces + property oracle on the implementation",
+    },
+    "C03": {
+        "text": "Lean theorems about the protocol models: ServerUpdateTick is the tick of the last applied update message and never decreases for in-order messages; a hidden entity contributes nothing; an entity new to the client is sent whole in one record; a visible entity that left replication is in DESPAWNS; an entity with an insertion/removal gets its pending mutations in the same record; the target of a CHANGES record is marked. The end-to-end 'structure = view at update tick' (C03_structure_partial) is checked as an oracle on the implementation after every client frame, with both models in lock step.",
+        "design_ref": "DESIGN.md §7 C03",
+        "note": 'partial: update_is_diff for every reachable server state is not proved as one theorem; per-section theorems + exact correspondence + oracle.',
+        "technique": "Lean 4 proof (per-run theorems about executable server/client protocol models) + lock-step model/implementation correspondence on real traces + property oracle on the implementation",
+    },
+    "C07": {
+        "text": 'Lean theorems about the server model: a replication run produces output only for authorized clients (C07_unauthorized_silent); a freshly authorized client is sent every non-hidden replicated entity whole (C07_full_state_on_authorization, C07_authorize_fresh); check_protocol authorizes exactly on equal hashes and otherwise notifies and requests a disconnect (C07_protocol_check). Events for unauthorized clients are part of the event model (C04/C05).',
+        "design_ref": "DESIGN.md §7 C07",
+        "note": "The requirement 'ClientTicks exists only on authorized clients' (Bevy required components) is modelled as a flag and tied by the lock-step comparison.",
+        "technique": "Lean 4 proof (per-run theorems about executable server/client protocol models) + lock-step model/implementation correspondence on real traces + property oracle on the implementation",
+    },
+    "C09": {
+        "text": "Lean theorems about the models: in the client's first frame after the session ended its update tick, entity map (both directions), buffered mutate messages and acknowledgements are reset whatever was delivered (C09_client_reset); the server keeps nothing of a disconnected client and nothing after stop+reset (C09_server_forgets_client, C09_server_reset); a new session starts from fresh replication state (C09_fresh_session). Absence of panics and convergence of the new session are checked on the implementation.",
+        "design_ref": "DESIGN.md §7 C09",
+        "note": 'Known finding F13 (client panic after disconnect under the default protocol check) is reported, tagged by the trace checker. Process crashes are not a notion of this in-memory library: crash points are session cuts.',
+        "technique": "Lean 4 proof (per-run theorems about executable server/client protocol models) + lock-step model/implementation correspondence on real traces + property oracle on the implementation",
+    },
+    "C11": {
+        "text": "Lean theorems about the server model: a component changed after the server's belief is in the run's messages whenever its rate fires (C11_resend_until_ack); acknowledging a registered message moves only the ticks of entities in that message, only forward, exactly to that message's run (C11_ack_sound); unknown / repeated indices change nothing (C11_unknown_ack_noop, C11_ack_once); with nothing pending and nothing to say the run sends nothing (C11_idle_silent).",
+        "design_ref": "DESIGN.md §7 C11",
+        "note": "Known finding F15 (16-bit index wrap with 65536 in-flight messages) is a documented design limit outside the theorems' in-flight table (indices are unique per registration within the table).",
+        "technique": "Lean 4 proof (per-run theorems about executable server/client protocol models) + lock-step model/implementation correspondence on real traces + property oracle on the implementation",
+    },
+    "C16": {
+        "text": "Lean theorems about the client model: applying a mapping to a live pre-spawned entity maps the server entity to it, marks it and creates nothing (C16_adopted); records for a mapped server entity land on the mapped entity without spawning or touching the map (C16_lands_on_existing); a mapping to a missing entity is ignored and the first record spawns exactly one fresh marked entity (C16_gone_ignored, C16_fresh_if_gone); other clients' state is untouched (C16_others_unaffected). Section order MAPPINGS before everything else is part of the wire model.",
+        "design_ref": "DESIGN.md §7 C16",
+        "note": 'Known finding F21 (despawn queued for a never-sent hidden entity removes the pre-spawned entity) is reported, tagged by the trace checker.',
+        "technique": "Lean 4 proof (per-run theorems about executable server/client protocol models) + lock-step model/implementation correspondence on real traces + property oracle on the implementation",
+    },
     "C10": {
         "text": "Lean theorems about an exact model of can_pack and the chunking loop of Mutations::send, for every list of chunk sizes, header and "
                 "max size: the messages are a partition of the chunk list into consecutive runs (C10_partition), hence any delivered subset "
